@@ -9,7 +9,8 @@ use std::collections::{BTreeMap, BTreeSet};
 
 const PATTERNS: &[&str] = &["", "", "", "*", "a*", "*1", "?:*", "[a-c]:*", "*:1*", "b:?", "nomatch*", "*[02468]", "c:1?", "[^a]*", "d:*5*", "*\\:*"];
 
-fn name(r: &mut Rng, i: u64) -> String { format!("{}:{}", *r.pick(&["a", "b", "c", "d", "e"]), i) }
+// ("\u{e9}" is two bytes: a glob `?` stands for one byte, not for one character)
+fn name(r: &mut Rng, i: u64) -> String { format!("{}:{}", *r.pick(&["a", "b", "c", "d", "e", "a", "b", "c", "d", "e", "\u{e9}"]), i) }
 
 pub fn gen(seed: u64, _idx: u64, tier: Tier) -> Scenario {
     let mut r = Rng::new(seed);
